@@ -4,10 +4,11 @@ import json, os, sys
 ROOT = os.path.dirname(os.path.dirname(os.path.abspath(__file__)))
 sys.path.insert(0, os.path.join(ROOT, "lib"))
 import props, manifest_text as T
+ready = set(open(os.path.join(ROOT, 'lib', 'ready.txt')).read().split())
 allp = [json.loads(l)["id"] for l in open(os.path.join(ROOT, "properties.jsonl"))]
 checks = []
 for pid in allp:
-    if pid not in props.PROPS or pid in T.NOT_APPLICABLE:
+    if pid not in props.PROPS or pid in T.NOT_APPLICABLE or pid not in ready:
         continue
     t = props.TEXT[pid]
     checks.append(dict(property_id=pid, quick_cmd="./check %s --tier quick" % pid,
